@@ -130,8 +130,13 @@ func genCacheSeq(seed uint64) lib.Case {
 				}
 			}
 		}
+		outcome := fmt.Sprintf("(FOk %d)", id)
+		if op.Fail {
+			// error WITH the rejected data (id), or with nil data
+			outcome = fmt.Sprintf("(FErr %s)", coqOptN(!op.NilOnEr, id))
+		}
 		cops = append(cops, fmt.Sprintf("mkCop %s %s %s %s %s %s", coqKey(op.Key), b2c(op.NoCache),
-			coqOptN(!op.Fail, id), coqOptN(retOK, retID), b2c(called), coqSegs(dump)))
+			outcome, coqOptN(retOK, retID), b2c(called), coqSegs(dump)))
 
 		// direct oracle
 		if called {
@@ -155,7 +160,10 @@ func genCacheSeq(seed uint64) lib.Case {
 		default:
 			hits++
 			f, ok := fetches[retID]
-			if !ok || !f.OK || f.Key != op.Key {
+			switch {
+			case ok && !f.OK:
+				fails = append(fails, fmt.Sprintf("op %d: served the data that fetch %d returned TOGETHER WITH AN ERROR (key %v)", i, retID, f.Key))
+			case !ok || f.Key != op.Key:
 				fails = append(fails, fmt.Sprintf("op %d: served id %d which is not a successful fetch of %v", i, retID, op.Key))
 			}
 		}
